@@ -67,6 +67,12 @@ struct CarrierState {
 struct Carrier(Arc<Mutex<CarrierState>>);
 
 impl Carrier {
+    /// a future is blocked on this carrier
+    fn awaited(&self) -> bool {
+        let s = self.0.lock().unwrap();
+        s.rwaker.is_some() || s.wwaker.is_some()
+    }
+
     fn set(&self, wmode: Option<u8>, data: Option<Vec<u8>>, eof: bool) {
         let mut s = self.0.lock().unwrap();
         if let Some(w) = wmode {
@@ -167,6 +173,8 @@ enum Ev {
     Inbound(u64, u64),
     /// `how`: 0 the carrier produces the result, 1 the 15 s executor timeout does
     Fut { id: u64, res: Res, how: u64 },
+    /// bounded event channel only: the user receives one event
+    Recv,
 }
 
 fn push_list(out: &mut Vec<u64>, l: &[u64]) {
@@ -219,6 +227,7 @@ impl Ev {
                 push_list(&mut o, peers);
             }
             Ev::Nop => o.push(2),
+            Ev::Recv => o.push(13),
             Ev::Established(p, a) => o.extend([4, *p, *a as u64]),
             Ev::Closed(p) => o.extend([5, *p]),
             Ev::Kill(p) => o.extend([6, *p]),
@@ -281,6 +290,8 @@ struct Header {
     mgr: Vec<(u64, u64)>,
     /// peers put into the routing table before the first event (ignored by the model)
     known: Vec<u64>,
+    /// capacity of the event channel towards the handle; 0 = the shipped one (never full here)
+    cap: u64,
 }
 
 fn encode_case(h: &Header, events: &[Vec<u64>]) -> Vec<u64> {
@@ -289,6 +300,7 @@ fn encode_case(h: &Header, events: &[Vec<u64>]) -> Vec<u64> {
         c.extend([*p, *v]);
     }
     push_list(&mut c, &h.known);
+    c.push(h.cap);
     c.push(events.len() as u64);
     for e in events {
         c.extend(e);
@@ -315,6 +327,7 @@ fn decode_case(c: &[u64]) -> Option<(Header, Vec<Ev>)> {
     let _local = r.n()?;
     let mgr = r.pairs()?;
     let known = r.list()?;
+    let cap = r.n()?;
     let n = r.n()? as usize;
     let mut evs = Vec::new();
     for _ in 0..n {
@@ -330,6 +343,7 @@ fn decode_case(c: &[u64]) -> Option<(Header, Vec<Ev>)> {
             },
             1 => Ev::PutToPeers { q: r.n()?, qtag: r.n()?, qn: r.n()?, peers: r.list()? },
             2 => Ev::Nop,
+            13 => Ev::Recv,
             3 => {
                 r.n()?;
                 continue;
@@ -363,7 +377,7 @@ fn decode_case(c: &[u64]) -> Option<(Header, Vec<Ev>)> {
     if r.1 != c.len() {
         return None;
     }
-    Some((Header { k, mgr, known }, evs))
+    Some((Header { k, mgr, known, cap }, evs))
 }
 
 // ------------------------------------------------------------------ the system under test
@@ -427,6 +441,11 @@ struct Sys {
     sub_peer: HashMap<u64, u64>,
     /// substream id -> real query id of the action it was opened for
     fut_query: HashMap<u64, usize>,
+    cap: u64,
+    /// bounded channel: the loop is blocked in a handler on a full event channel
+    parked: bool,
+    recv_buf: Vec<KademliaEvent>,
+    last_recv_none: bool,
 }
 
 impl Sys {
@@ -448,7 +467,8 @@ impl Sys {
             ProtocolCodec::UnsignedVarint(Some(70 * 1024)),
             Duration::from_secs(3600 * 24),
         );
-        let (config, handle) = ConfigBuilder::new().with_replication_factor(h.k as usize).build();
+        let builder = ConfigBuilder::new().with_replication_factor(h.k as usize);
+        let (config, handle) = if h.cap == 0 { builder.build() } else { builder.verif_build_bounded(h.cap as usize) };
         let probe = VerifProbe::default();
         let kad = VerifKademlia::new(service, config, probe.clone());
         let fut: Pin<Box<dyn Future<Output = ()>>> = Box::pin(async move {
@@ -475,6 +495,10 @@ impl Sys {
             inflight: BTreeMap::new(),
             sub_peer: HashMap::new(),
             fut_query: HashMap::new(),
+            cap: h.cap,
+            parked: false,
+            recv_buf: Vec::new(),
+            last_recv_none: false,
         };
         // routing table, then the manager's beliefs (add_known_peer goes through the manager too)
         for p in &h.known {
@@ -651,6 +675,10 @@ impl Sys {
         let before_len = self.dump.executor_len;
         let mut real_q: Option<usize> = None;
         let mut touched: Option<u64> = None;
+        // bounded channel: does this event make the loop run a handler?
+        let mut expect = true;
+        // select! iterations this event causes (get_record with a local record = store_record + get_record)
+        let mut iterations = 1usize;
         match &e {
             Ev::Cmd { q, ctag, qtag, qn, local, .. } => {
                 let quorum = Self::quorum(*qtag, *qn);
@@ -664,6 +692,7 @@ impl Sys {
                     2 => self.handle.start_providing(key, quorum).now_or_never(),
                     3 => {
                         if *local {
+                            iterations = 2;
                             let _ = self.handle.try_store_record(Record {
                                 key: key.clone(),
                                 value: vec![LOCAL_REC],
@@ -704,6 +733,7 @@ impl Sys {
                 });
             }
             Ev::Established(p, alive) => {
+                expect = !self.conns.contains_key(p);
                 if !self.conns.contains_key(p) {
                     let cid = self.next_cid;
                     self.next_cid += 1;
@@ -716,16 +746,19 @@ impl Sys {
                 }
             }
             Ev::Closed(p) => {
+                expect = self.conns.contains_key(p);
                 if let Some(c) = self.conns.remove(p) {
                     self.input.connection_closed(self.peer(*p), &c);
                 }
             }
             Ev::Kill(p) => {
+                expect = false;
                 if let Some(c) = self.conns.get_mut(p) {
                     c.kill();
                 }
             }
             Ev::Mgr(p, v) => {
+                expect = false;
                 if *p < MAX_POOL && *v <= 3 {
                     self.manager.verif_force_peer(self.peer(*p), *v as usize, self.peer_addr(*p));
                 }
@@ -749,6 +782,7 @@ impl Sys {
                 self.input.dial_failure(self.peer(*p), vec![self.peer_addr(*p % 200)]);
             }
             Ev::Inbound(p, id) => {
+                expect = !self.carriers.contains_key(id);
                 if !self.carriers.contains_key(id) {
                     let carrier = Carrier::default();
                     self.carriers.insert(*id, carrier.clone());
@@ -758,8 +792,22 @@ impl Sys {
                     self.inflight.insert(*id, FKind::InRead);
                 }
             }
+            Ev::Recv => {
+                expect = false;
+                let waker = futures::task::noop_waker();
+                let mut cx = Context::from_waker(&waker);
+                match Pin::new(&mut self.handle).poll_next(&mut cx) {
+                    Poll::Ready(Some(ev)) => {
+                        self.recv_buf.push(ev);
+                        self.last_recv_none = false;
+                    }
+                    _ => self.last_recv_none = true,
+                }
+            }
             Ev::Fut { id, res, how } => {
-                if let (Some(c), Some(kind)) = (self.carriers.get(id).cloned(), self.inflight.get(id).copied()) {
+                expect = false;
+                let live = self.carriers.get(id).map(|c| c.awaited()).unwrap_or(false);
+                if let (Some(c), Some(kind), true) = (self.carriers.get(id).cloned(), self.inflight.get(id).copied(), live || self.cap == 0) {
                     let sender = self.sub_peer.get(id).copied().unwrap_or(0);
                     let by_timeout = *how == 1 && self.inflight.len() == 1;
                     let valid = matches!(
@@ -771,6 +819,7 @@ impl Sys {
                             | (FKind::InSendEat, Res::SendOk | Res::Assume)
                     );
                     if valid {
+                        expect = true;
                         let write_stage = matches!(res, Res::SendFail) || (kind == FKind::InSendEat && *res == Res::Assume);
                         match res {
                             Res::SendOk => c.set(Some(1), None, false),
@@ -820,7 +869,7 @@ impl Sys {
             }
         }
         self.poll();
-        self.collect(&mut e, real_q, before_len, touched, trace)
+        self.collect(&mut e, real_q, before_len, touched, if expect { iterations } else { 0 }, trace)
     }
 
     fn collect(
@@ -829,10 +878,16 @@ impl Sys {
         real_q: Option<usize>,
         before_len: usize,
         touched: Option<u64>,
+        expect: usize,
         trace: &mut Vec<u64>,
     ) -> Vec<Vec<u64>> {
         let entries = self.probe.take();
-        let events = self.drain_events();
+        let saw_select = matches!(entries.last(), Some(VerifProbeEntry::AtSelect(_)));
+        let events = if self.cap == 0 { self.drain_events() } else { std::mem::take(&mut self.recv_buf) };
+        if self.cap > 0 {
+            let selects = entries.iter().filter(|x| matches!(x, VerifProbeEntry::AtSelect(_))).count();
+            self.parked = if expect > 0 { selects < expect } else { self.parked && !saw_select };
+        }
         for c in self.conns.values_mut() {
             c.take_open_requests();
         }
@@ -844,7 +899,7 @@ impl Sys {
             }
         }
         // a future the harness expected but the loop did not create
-        if let Some(id) = touched {
+        if let (Some(id), true) = (touched, saw_select || self.cap == 0) {
             let grew = match e {
                 Ev::Opened(..) => self.dump.executor_len > before_len,
                 _ => self.dump.executor_len >= before_len,
@@ -904,12 +959,25 @@ impl Sys {
                 }
             }
         }
-        trace.push(1);
-        trace.push(outs.len() as u64);
-        for o in outs {
-            trace.extend(o);
+        if self.cap == 0 {
+            trace.push(1);
+            trace.push(outs.len() as u64);
+            for o in outs {
+                trace.extend(o);
+            }
+            self.enc_dump(trace);
+        } else {
+            // bounded channel: what the user received; the snapshot only when the loop waits in select!
+            trace.push(1);
+            trace.push(self.parked as u64);
+            trace.push(events.len() as u64);
+            for ev in &events {
+                trace.extend(self.enc_event(ev));
+            }
+            if !self.parked {
+                self.enc_dump(trace);
+            }
         }
-        self.enc_dump(trace);
         let mut out = vec![e.encode()];
         out.extend(serves);
         out
@@ -1042,6 +1110,14 @@ impl Sys {
         }
     }
 
+    fn live_futs(&self) -> Vec<(u64, FKind)> {
+        self.inflight
+            .iter()
+            .filter(|(id, _)| self.cap == 0 || self.carriers.get(*id).map(|c| c.awaited()).unwrap_or(false))
+            .map(|(a, b)| (*a, *b))
+            .collect()
+    }
+
     // ---- what the environment still owes, read from the last snapshot ----
     fn owed_dials(&self) -> Vec<u64> {
         let mut v: Vec<u64> =
@@ -1076,7 +1152,7 @@ fn run_stored(c: &[u64]) -> Option<(Vec<u64>, Vec<u64>)> {
     // in a task that never yields, i.e. delay events of long histories
     rt.block_on(tokio::task::unconstrained(async {
         let mut s = Sys::new(&h)?;
-        let mut trace = vec![1u64];
+        let mut trace = vec![if h.cap == 0 { 1u64 } else { 2u64 }];
         let mut events = Vec::new();
         for e in &evs {
             events.extend(s.apply(e, &mut trace).await);
@@ -1226,7 +1302,7 @@ impl Gen {
 
 /// One adaptive run: a small network with faults, a few user operations, then (usually) the
 /// environment discharges everything it still owes.
-fn generate(seed: u64, tier_long: bool) -> Option<(Vec<u64>, Vec<u64>)> {
+fn generate(seed: u64, tier_long: bool, cap: u64) -> Option<(Vec<u64>, Vec<u64>)> {
     let mut rng = Rng::new(seed);
     let n = rng.range(2, 7);
     let k = rng.pick(&[1u64, 2, 3, 20, 20, 20]);
@@ -1238,14 +1314,14 @@ fn generate(seed: u64, tier_long: bool) -> Option<(Vec<u64>, Vec<u64>)> {
             known.push(p);
         }
     }
-    let h = Header { k, mgr, known };
+    let h = Header { k, mgr, known, cap };
     let mut g = Gen { rng, n, k, next_q: 0, next_inbound: INBOUND_BASE, answered: Vec::new(), dial_answered: Vec::new() };
     let rt = runtime();
     // unconstrained: tokio's cooperative budget would make channel polls return Pending spuriously
     // in a task that never yields, i.e. delay events of long histories
     rt.block_on(tokio::task::unconstrained(async {
         let mut s = Sys::new(&h)?;
-        let mut trace = vec![1u64];
+        let mut trace = vec![if h.cap == 0 { 1u64 } else { 2u64 }];
         let mut events: Vec<Vec<u64>> = Vec::new();
         let happy = g.rng.pick(&[30u64, 60, 60, 85, 100]);
         let max_cmds = g.rng.range(1, if tier_long { 5 } else { 3 });
@@ -1261,7 +1337,7 @@ fn generate(seed: u64, tier_long: bool) -> Option<(Vec<u64>, Vec<u64>)> {
         for _ in 0..steps {
             let dials = s.owed_dials();
             let subs: Vec<(u64, u64)> = s.owed_subs().into_iter().filter(|(sid, _)| !g.answered.contains(sid)).collect();
-            let futs: Vec<(u64, FKind)> = s.inflight.iter().map(|(a, b)| (*a, *b)).collect();
+            let futs: Vec<(u64, FKind)> = s.live_futs();
             let live = !s.dump.queries.is_empty();
             let mut choices: Vec<u64> = Vec::new();
             if cmds < max_cmds {
@@ -1277,7 +1353,21 @@ fn generate(seed: u64, tier_long: bool) -> Option<(Vec<u64>, Vec<u64>)> {
                 choices.extend([3, 3, 3, 3]);
             }
             choices.push(4);
-            let ev = match g.rng.pick(&choices) {
+            if cap > 0 && (s.parked || g.rng.chance(35)) {
+                events.extend(s.apply(&Ev::Recv, &mut trace).await);
+                continue;
+            }
+            let choice = g.rng.pick(&choices);
+            if cap > 0 && choice == 0 {
+                // a command is issued with an empty channel (its seeds are read from the snapshot)
+                for _ in 0..64 {
+                    events.extend(s.apply(&Ev::Recv, &mut trace).await);
+                    if s.last_recv_none && !s.parked {
+                        break;
+                    }
+                }
+            }
+            let ev = match choice {
                 0 => {
                     cmds += 1;
                     let q = g.next_q;
@@ -1371,8 +1461,10 @@ fn generate(seed: u64, tier_long: bool) -> Option<(Vec<u64>, Vec<u64>)> {
             for _ in 0..400 {
                 let dials = s.owed_dials();
                 let subs: Vec<(u64, u64)> = s.owed_subs().into_iter().filter(|(sid, _)| !g.answered.contains(sid)).collect();
-                let futs: Vec<(u64, FKind)> = s.inflight.iter().map(|(a, b)| (*a, *b)).collect();
-                let ev = if let Some((id, kind)) = futs.first().copied() {
+                let futs: Vec<(u64, FKind)> = s.live_futs();
+                let ev = if s.parked {
+                    Ev::Recv
+                } else if let Some((id, kind)) = futs.first().copied() {
                     let qtag = fut_query_tag(&s, id);
                     let res = g.result_for(kind, qtag, happy);
                     Ev::Fut { id, res, how: 0 }
@@ -1401,6 +1493,14 @@ fn generate(seed: u64, tier_long: bool) -> Option<(Vec<u64>, Vec<u64>)> {
                 events.extend(s.apply(&ev, &mut trace).await);
             }
         }
+        if cap > 0 {
+            for _ in 0..400 {
+                events.extend(s.apply(&Ev::Recv, &mut trace).await);
+                if s.last_recv_none && !s.parked {
+                    break;
+                }
+            }
+        }
         Some((encode_case(&h, &events), trace))
     }))
 }
@@ -1420,13 +1520,13 @@ fn witnesses() -> Vec<(&'static str, Header, Vec<Ev>)> {
         (
             // F-C16a: put_record_to_peers to a peer that cannot be dialed (no usable address)
             "f_c16a_put_to_peers_undialable",
-            Header { k: 20, mgr: vec![(0, 0)], known: vec![0] },
+            Header { k: 20, mgr: vec![(0, 0)], known: vec![0], cap: 0 },
             vec![Ev::PutToPeers { q: 0, qtag: 1, qn: 1, peers: vec![0] }],
         ),
         (
             // F-C16a, second shape: lookup succeeds, then the only found node cannot be reached again
             "f_c16a_put_record_target_lost",
-            Header { k: 20, mgr: vec![(0, 1)], known: vec![0] },
+            Header { k: 20, mgr: vec![(0, 1)], known: vec![0], cap: 0 },
             vec![
                 cmd(0, 1, 0),
                 Ev::Established(0, true),
@@ -1440,13 +1540,13 @@ fn witnesses() -> Vec<(&'static str, Header, Vec<Ev>)> {
             // F-C16b: the connection comes up but its task is already gone when the queued
             // PUT_VALUE wants its substream
             "f_c16b_established_open_fails",
-            Header { k: 20, mgr: vec![(0, 1)], known: vec![0] },
+            Header { k: 20, mgr: vec![(0, 1)], known: vec![0], cap: 0 },
             vec![Ev::PutToPeers { q: 0, qtag: 1, qn: 1, peers: vec![0] }, Ev::Established(0, false)],
         ),
         (
             // F-C16c: the peer answers FIND_NODE with bytes that do not decode
             "f_c16c_undecodable_response",
-            Header { k: 20, mgr: vec![(0, 2)], known: vec![0] },
+            Header { k: 20, mgr: vec![(0, 2)], known: vec![0], cap: 0 },
             vec![
                 Ev::Established(0, true),
                 cmd(0, 0, 0),
@@ -1457,7 +1557,7 @@ fn witnesses() -> Vec<(&'static str, Header, Vec<Ev>)> {
         (
             // F-C16c, second shape: ADD_PROVIDER sent back as the "response"
             "f_c16c_add_provider_as_response",
-            Header { k: 20, mgr: vec![(0, 2)], known: vec![0] },
+            Header { k: 20, mgr: vec![(0, 2)], known: vec![0], cap: 0 },
             vec![
                 Ev::Established(0, true),
                 cmd(0, 4, 0),
@@ -1469,13 +1569,13 @@ fn witnesses() -> Vec<(&'static str, Header, Vec<Ev>)> {
             // F-C16d: dial, connection established, the substream opened for the queued action
             // fails to negotiate (peer does not speak the protocol)
             "f_c16d_open_failure_after_dial",
-            Header { k: 20, mgr: vec![(0, 1)], known: vec![0] },
+            Header { k: 20, mgr: vec![(0, 1)], known: vec![0], cap: 0 },
             vec![cmd(0, 0, 0), Ev::Established(0, true), Ev::OpenFail(0)],
         ),
         (
             // a silent peer: the 15 s executor timeout ends the wait
             "silent_peer_times_out",
-            Header { k: 20, mgr: vec![(0, 2)], known: vec![0] },
+            Header { k: 20, mgr: vec![(0, 2)], known: vec![0], cap: 0 },
             vec![
                 Ev::Established(0, true),
                 cmd(0, 3, 1),
@@ -1583,7 +1683,7 @@ pub fn main(args: &Args) {
         Ok(failed) if failed.is_empty() => eprintln!("c16: end-to-end stream ok (3 operations over loopback TCP)"),
         other => {
             eprintln!("c16: end-to-end stream FAILED: {:?}", other.ok());
-            let h = Header { k: 20, mgr: vec![(0, 0)], known: vec![0] };
+            let h = Header { k: 20, mgr: vec![(0, 0)], known: vec![0], cap: 0 };
             let e = Ev::PutToPeers { q: 0, qtag: 1, qn: 1, peers: vec![0] };
             out.emit(&encode_case(&h, &[e.encode()]), &[1, 1, 0, 0, 0, 0, 0, 0]);
         }
@@ -1592,6 +1692,8 @@ pub fn main(args: &Args) {
     let seed = args.u64("seed", 1);
     let long = args.str("tier") == Some("thorough");
     for i in 0..n {
-        run_one(|| generate(seed.wrapping_mul(1_000_003).wrapping_add(i), long), &[0], &mut out);
+        // every fifth history runs on an event channel of 1-3 slots
+        let cap = if i % 5 == 4 { 1 + (i / 5) % 3 } else { 0 };
+        run_one(|| generate(seed.wrapping_mul(1_000_003).wrapping_add(i), long, cap), &[0], &mut out);
     }
 }
